@@ -712,11 +712,25 @@ func drawPairTamper(w *rand.Rand, proto string, h0 *pairHook, seed sim.Seed) *ta
 	if len(leaves) == 0 {
 		return nil
 	}
-	l := leaves[w.IntN(len(leaves))]
+	// Stratify by field: first one field of the message (array indices
+	// wildcarded), then one leaf of it, so that a single short field (a check
+	// value next to a large matrix) is altered as often as the large one.
+	groups := map[string][]cbor.Leaf{}
+	var gkeys []string
+	for _, lf := range leaves {
+		g := cbor.NormPath(lf.Path)
+		if _, ok := groups[g]; !ok {
+			gkeys = append(gkeys, g)
+		}
+		groups[g] = append(groups[g], lf)
+	}
+	sort.Strings(gkeys)
+	grp := groups[gkeys[w.IntN(len(gkeys))]]
+	l := grp[w.IntN(len(grp))]
 	t := &tamper{CID: stage, Path: l.Path}
 	n := l.Node
-	switch w.IntN(5) {
-	case 0, 1:
+	switch w.IntN(6) {
+	case 0, 1, 5:
 		t.Op = "flip"
 		bits := 8
 		if n.Major == 2 || n.Major == 3 {
@@ -781,7 +795,7 @@ func C09Workloads() []harness.Workload {
 		pairWorkload("ecbbot-p256", 12, 1000),
 		pairWorkload("vsot", 24, 2000),
 		pairWorkload("softspoken", 40, 4000),
-		pairWorkload("rvole-bbot", 40, 3000),
+		pairWorkload("rvole-bbot", 80, 4000),
 		pairWorkload("rvole-softspoken", 40, 3000),
 	}
 }
